@@ -431,6 +431,10 @@ func runC16(seed int64, count int) {
 				if n > 60000 {
 					fc = nil
 				}
+			case 3:
+				if n > 0 {
+					fc = frame.FixedLengthCodec(n)
+				}
 			}
 			var wire []byte
 			var got string
@@ -445,7 +449,18 @@ func runC16(seed int64, count int) {
 				}
 				onRead := func(m netty.Message) { got, delivered = m.(string), true }
 				if fc != nil {
-					fc.HandleRead(&fakeCtx{onRead: func(m netty.Message) { tc.HandleRead(&fakeCtx{onRead: onRead}, m) }}, bytes.NewReader(wire))
+					// the frame arrives in several transport reads
+					var src netty.Message = bytes.NewReader(wire)
+					if rng.Intn(2) == 0 {
+						var cs [][]byte
+						for _, c := range chunkings(rng, wire, 2+rng.Intn(2)) {
+							if len(c) > 0 {
+								cs = append(cs, append([]byte(nil), c...))
+							}
+						}
+						src = &chunkReader{chunks: cs, fin: io.EOF}
+					}
+					fc.HandleRead(&fakeCtx{onRead: func(m netty.Message) { tc.HandleRead(&fakeCtx{onRead: onRead}, m) }}, src)
 				} else {
 					tc.HandleRead(&fakeCtx{onRead: onRead}, carrier(rng, wire))
 				}
